@@ -68,8 +68,47 @@ class Counted:
         return "%g*sin(%g x)+%g*Q[%d]+%g*Q[0]*x" % (self.a, self.w, self.b, self.k, self.c)
 
 
+class Counted3(Counted):
+    """the same sources written with a THIRD, defaulted parameter -- the usual idiom to bind a coefficient (lambda x, q, k=0.3: -k*q[1]):
+    the operator calls source(x, Q), so the coefficient is the default"""
+    K = 0.625
+
+    def __call__(self, x, q, k=K):
+        return k * np.asarray(Counted.__call__(self, x, q), float)
+
+    def expected(self, x, q):
+        return self.K * np.asarray(Counted.expected(self, x, q), float)
+
+    def value(self, x, q):
+        return Counted.value(self, x, q)
+
+    def desc(self):
+        return "k * (%s) with a defaulted third parameter k=%g" % (Counted.desc(self), self.K)
+
+
+def _calls(c):
+    return c.counter.calls if hasattr(c, "counter") else c.calls
+
+
 def _sources(rng, neq, subset):
-    return [Counted(rng, neq, i) if i in subset else None for i in range(neq)]
+    out = []
+    for i in range(neq):
+        if i not in subset:
+            out.append(None)
+            continue
+        r = rng.random()
+        if r < 0.2:
+            out.append(Counted3(rng, neq, i))
+        elif r < 0.3:
+            # ... or as a plain function / lambda with a defaulted coefficient (no callable object): source(x, Q) = k0 * base(x, Q)
+            c = Counted3(rng, neq, i)
+            fn = (lambda c_: (lambda x, q, k=Counted3.K: k * np.asarray(Counted.__call__(c_, x, q), float)))(c)
+            fn.expected, fn.untouched, fn.desc, fn.mode = c.expected, c.untouched, (lambda c_=c: "lambda x, q, k=%g: k*(%s)" % (Counted3.K, Counted.desc(c_))), c.mode
+            fn.counter = c
+            out.append(fn)
+        else:
+            out.append(Counted(rng, neq, i))
+    return out
 
 
 def _section(rng, L, kind=None):
@@ -124,7 +163,7 @@ def user_sources(ctx, rng, idx):
                 sc = max(np.max(np.abs(R0[i])), np.max(np.abs(exp))) + 1e-300
                 ctx.close(mname, np.max(np.abs((R1[i] - R0[i]) - exp)) / sc, TOL, "%s/source-not-added-once-to-its-own-equation/eq%d%s" % (mname, i, "" if call == 0 else "/repeated-call"),
                           {"subset": sorted(sub), "call": call, "source kind": src[i].mode}, cls=mname)
-                ctx.true("called-once", src[i].calls == call + 1, "%s/source-callable-not-called-exactly-once" % mname, {"calls": src[i].calls, "eq": i, "rhs calls": call + 1}, cls="called-once")
+                ctx.true("called-once", _calls(src[i]) == call + 1, "%s/source-callable-not-called-exactly-once" % mname, {"calls": _calls(src[i]), "eq": i, "rhs calls": call + 1}, cls="called-once")
                 ctx.true("source-array-untouched", src[i].untouched(), "%s/array-returned-by-user-source-modified" % mname, {"eq": i}, cls=mname)
         ctx.true("field-untouched", all(np.array_equal(a, b) for a, b in zip(f1.data, fcopy)), "%s/field-modified-by-rhs" % mname, None, cls=mname)
     ctx.nontrivial(mname, sorted(sub), s0.desc())
@@ -197,7 +236,7 @@ def nozzle_user(ctx, rng, idx):
                 sc = max(np.max(np.abs(R0[i])), np.max(np.abs(exp))) + 1e-300
                 ctx.close("nozzle-user-sources", np.max(np.abs((R1[i] - R0[i]) - exp)) / sc, 1e-11, "nozzle/user-source-not-added-to-geometric-source/eq%d%s" % (i, "" if call == 0 else "/repeated-call"),
                           {"subset": sorted(sub), "call": call, "source kind": src[i].mode}, cls="nozzle-user-sources")
-                ctx.true("called-once", src[i].calls == call + 1, "nozzle/source-callable-not-called-exactly-once", {"calls": src[i].calls, "eq": i}, cls="called-once")
+                ctx.true("called-once", _calls(src[i]) == call + 1, "nozzle/source-callable-not-called-exactly-once", {"calls": _calls(src[i]), "eq": i}, cls="called-once")
                 ctx.true("source-array-untouched", src[i].untouched(), "nozzle/array-returned-by-user-source-modified", {"eq": i}, cls="nozzle-user-sources")
         ctx.true("field-untouched", all(np.array_equal(a, b) for a, b in zip(f1.data, fcopy)), "nozzle/field-modified-by-rhs", None, cls="nozzle-user-sources")
     # a second nozzle built afterwards without sources must not have inherited them (no shared state between instances)
